@@ -27,7 +27,7 @@ ASSUMPTIONS = [
     "a pair in which one run ends in a documented rejection (thermal crop without enough degree days in the shorter tail) is counted as rejected, not compared",
     "(extend) both runs read the same weather table, generated long enough for the extended end",
 ]
-BUDGET = {"quick": 260, "thorough": 6000}
+BUDGET = {"quick": 380, "thorough": 6000}
 PROFILE_CAL = gen.profile(crops=list(gen.CAL_CROPS) + ["Potato", "SugarBeet", "Tomato", "Quinoa"], seasons=(1, 3), max_days=650, p_custom_soil=0.15, p_gw=0.15, p_fm=0.3, pad=(0, 5))
 PROFILE_ANY = gen.profile(seasons=(1, 2), max_days=650, p_gdd=0.5, p_custom_soil=0.15, p_gw=0.15, p_fm=0.3, pad=(0, 5))
 # extension pairs: CO2 tables with yearly / 5-yearly / decadal entries (interpolated), years where the default table is decadal
